@@ -219,12 +219,35 @@ func Atlas() []*spec.Program {
 		out = append(out, prog("a_embednoneof", append([]string{"C07"}, convProps...), baseConfig("HasEmbP"), nil, br, emb2,
 			M("HasEmbP", nil, F("Own", "string"), F("EmbP", "msg:EmbP", embed()))))
 	}
+	// --- several nullable embedded messages and several oneofs promoted from by-value embedded messages in one message
+	{
+		ea := M("EmbA", nil, F("AStr", "string"), F("AInt", "int64"))
+		eb := M("EmbB", nil, F("BStr", "string"))
+		ec := M("EmbC3", nil, F("CList", "string", rep()))
+		ed := M("EmbD", nil, F("DBool", "bool"))
+		oa := M("EmbOA", []string{"PickA"}, F("OaPlain", "string"), F("OaX", "string", oneof(0)), F("OaY", "int32", oneof(0)))
+		ob := M("EmbOB", []string{"PickB"}, F("ObX", "string", oneof(0)), F("ObY", "bool", oneof(0)))
+		oc := M("EmbOC", []string{"PickC"}, F("OcX", "int64", oneof(0)), F("OcY", "string", oneof(0)))
+		out = append(out, prog("a_embedmulti", append([]string{"C07", "C14"}, convProps...), baseConfig("HasMany"), nil, ea, eb, ec, ed, oa, ob, oc,
+			M("HasMany", []string{"Own"}, F("Head", "string"),
+				F("EmbA", "msg:EmbA", embed()), F("EmbOA", "msg:EmbOA", nn(), embed()), F("EmbB", "msg:EmbB", embed()),
+				F("EmbOB", "msg:EmbOB", nn(), embed()), F("EmbC3", "msg:EmbC3", embed()), F("EmbOC", "msg:EmbOC", nn(), embed()),
+				F("EmbD", "msg:EmbD", embed()), F("OwnX", "string", oneof(0)), F("OwnY", "int32", oneof(0)), F("Tail", "bool"))))
+	}
 	// --- a nullable embedded message inside a nullable embedded message
 	{
 		q := M("EmbQ", nil, F("QStr", "string"), F("QList", "int64", rep()))
 		p2 := M("EmbP2", nil, F("PStr", "string"), F("EmbQ", "msg:EmbQ", embed()))
 		out = append(out, prog("a_embednn", convProps, baseConfig("HasEmbNN"), nil, q, p2,
 			M("HasEmbNN", nil, F("Own", "string"), F("EmbP2", "msg:EmbP2", embed()))))
+		// three levels, with a by-value embedded message in between
+		d3 := M("EmbD3", nil, F("DStr", "string"), F("DList", "string", rep()), F("DLeaf", "msg:EmbLeaf3"), F("DInt", "int64"))
+		leaf3 := M("EmbLeaf3", nil, F("LStr", "string"))
+		c3 := M("EmbC4", nil, F("CStr", "string"), F("EmbD3", "msg:EmbD3", embed()))
+		v3 := M("EmbV3", nil, F("VStr", "string"), F("EmbC4", "msg:EmbC4", embed()))
+		b3 := M("EmbB3", nil, F("BInt", "int32"), F("EmbV3", "msg:EmbV3", nn(), embed()))
+		out = append(out, prog("a_embednnn", convProps, baseConfig("HasEmb3"), nil, leaf3, d3, c3, v3, b3,
+			M("HasEmb3", nil, F("Own", "string"), F("EmbB3", "msg:EmbB3", embed()))))
 	}
 	// --- embedded below the root (F7: option paths)
 	{
@@ -307,6 +330,8 @@ func Atlas() []*spec.Program {
 		cfg.ComputedFields = []string{"Flags.Comp", "Flags.All", "Flags.CompPm", "Flags.L1.B", "Flags.Ls", "Sens", "L2.A", "Flags.L1"+".", "Leaf"}
 		cfg.SensitiveFields = []string{"Flags.Sens", "Flags.All", "Leaf.C", "Req", "Flags.Ls.", "FLAGS.VAL"}
 		cfg.UseStateForUnknownByDefault = true
+		// excluded fields in the middle of their messages: the fields declared after them keep their own comments
+		cfg.ExcludeFields = []string{"Flags.Sens", "Leaf.B"}
 		cfg.Validators = map[string][]string{"Flags.Val": {spec.SupportPkg + `.V("v1")`, spec.SupportPkg + `.V("v2")`}, "Leaf.B": {spec.SupportPkg + `.V("leafb")`},
 			"Val": {spec.SupportPkg + `.V("decoy1")`}, "L1.A": {spec.SupportPkg + `.V("decoy2")`}, "flags.pm": {spec.SupportPkg + `.V("decoy3")`}}
 		cfg.PlanModifiers = map[string][]string{"Flags.Pm": {spec.SupportPkg + `.PM("p1")`}, "Flags.CompPm": {spec.SupportPkg + `.PM("explicit")`}, "Flags.L2.A": {"github.com/hashicorp/terraform-plugin-framework/tfsdk.UseStateForUnknown()", spec.SupportPkg + `.PM("p2")`}}
